@@ -232,6 +232,25 @@ def default_open(r: R, chk, consumers: List[str]):
     chk.floor("DEFAULT-OPEN", "default rule selections", n, 2 * len(consumers))
 
 
+def open_nodes(r: R, chk, qual: str, rule="OPEN-NODES"):
+    """a function that integrates span by span by evaluating right-continuous spline functions at mapped reference nodes uses
+    no node family that contains the span ends (same reason as DEFAULT-OPEN: the right end of a span is evaluated on the next
+    span, which is wrong for every basis function that is discontinuous there — degree 0, interior knots of multiplicity p+1)"""
+    ctx = r.root(qual)
+    n = 0
+    for c in ast.walk(ctx.fi.node):
+        if isinstance(c, ast.Call):
+            fr = [f for f in funcrefs(ctx, c.func) if f.startswith(NS)]
+            if not fr:
+                continue
+            n += 1
+            bad = [f for f in fr if f in CLOSED_NODES]
+            chk.ob(rule, f"{qual}: `{seg(c, 40)}` samples no span end", not bad, loc=r.loc(ctx, c),
+                   detail="" if not bad else f"{qual}: `{seg(c, 50)}` ({bad[0]}: {CLOSED_NODES[bad[0]]}) puts quadrature nodes on the span ends; the basis functions are evaluated right-continuously, so the right end of every span reads the next span: for a source or target with a discontinuity at a knot (degree 0, multiplicity p+1) the Gram matrices are wrong — the fit of the step [0,1] on [0,1,2] into a constant gives 7/12 instead of 1/2",
+                   func=qual, construct="closed quadrature nodes in a span-by-span integration")
+    chk.floor(rule, f"reference-node generators in {qual}", n, 1)
+
+
 # ------------------------------------------------------------------ literal seeds
 def fold(e: ast.expr):
     if isinstance(e, ast.Constant):
@@ -329,7 +348,7 @@ def run(m, chk):
     jacobian(r, chk, ["calculus.Integrate.scalar", "calculus.Integrate.density", "calculus.Integrate.function"])
     for q, params in (("calculus.Integrate.scalar", ["curve"]), ("calculus.Integrate.density", ["curve"]), ("calculus.Integrate.lenght", ["curve"]), ("calculus.Integrate.function", ["knotvector"])):
         r.pure("PURE", q, params)
-    for q, need in (("calculus.Integrate.scalar", ["curve.knotvector", "curve.ctrlpoints", "function", "method", "nnodes"]), ("calculus.Integrate.density", ["curve.knotvector", "curve.ctrlpoints", "function", "method", "nnodes"]), ("calculus.Integrate.function", ["knotvector", "function", "method", "nnodes"])):
+    for q, need in (("calculus.Integrate.scalar", ["curve.knotvector", "curve.ctrlpoints", "curve.weights", "function", "method", "nnodes"]), ("calculus.Integrate.density", ["curve.knotvector", "curve.ctrlpoints", "curve.weights", "function", "method", "nnodes"]), ("calculus.Integrate.function", ["knotvector", "function", "method", "nnodes"])):
         ctx = r.root(q)
         for nid, v in sorted(ctx.ret_sites.items()):
             have = r.deep_dep(ctx, v, heap=ctx.ret_states[nid].heap)
